@@ -68,6 +68,8 @@ def gen_fault(rng: random.Random) -> dict:
     if kind == "exc":
         site = rng.choice(SITES)
         f = {"kind": "exc", "kspec": kspec, "site": site, "exc": rng.choice(EXC_CHOICES)}
+        if site != "line" and rng.random() < 0.12:
+            f["swap_stdout"] = True
         if site == "line":
             f["n"] = rng.choice([1, 2, 5, 17, rng.randint(1, 400), rng.randint(1, 3000)])
         elif site != "objective":
